@@ -154,4 +154,77 @@ theorem delete_leaves_nothing (st : Store) (id c B : Nat) (hc : 0 < c) (hcB : c 
       rw [List.filter_eq_self]; intro f hf; simp [hF f hf]
     rw [this]; simp
 
+/-- **resume_equivalent.**  A tracked upload carried out in any number of segments (each segment: new
+    stream, Resume — or start over when there is nothing to resume —, some writes of arbitrary sizes
+    continuing at the offset returned by Resume, Suspend), finished by a final segment (Resume, writes,
+    the remaining content, Close) and ClaimUpload, succeeds and leaves exactly the documents of a plain
+    upload of `content` without suspensions, for every partition `ws` of the content. -/
+theorem resume_equivalent (st : Store) (id c B : Nat) (hc : 0 < c) (hcB : c ≤ B)
+    (hC : ∀ d ∈ st.chunks, d.file ≠ id) (hF : ∀ f ∈ st.files, f.id ≠ id) (hM : ∀ m ∈ st.markers, m.file ≠ id)
+    (hfresh : ∀ m ∈ st.markers, m.id < st.nextId)
+    (content : Bytes) (plan : List (List Nat)) (last : List Nat) (ws : List Bytes) (hws : ws.flatten = content) :
+    (trackedUpload st content id c B plan last).2 = none ∧
+    (trackedUpload st content id c B plan last).1.chunks = (uploadAll st false id c B ws).1.chunks ∧
+    (trackedUpload st content id c B plan last).1.files = (uploadAll st false id c B ws).1.files ∧
+    (trackedUpload st content id c B plan last).1.markers = (uploadAll st false id c B ws).1.markers := by
+  obtain ⟨a1, a2, a3, a4⟩ := trackedUpload_ok st id c B hc hcB hC hF hM hfresh content plan last
+  obtain ⟨_, b2, b3, b4⟩ := uploadAll_untracked st id c B hc hcB hC hF hM hfresh ws
+  rw [hws] at b2 b3
+  exact ⟨a1, by rw [a2, b2], by rw [a3, b3], by rw [a4, b4]⟩
+
+/-! ### Boundary of the property (behaviours of the code that the hypotheses exclude) -/
+
+/-- DownloadStream.Seek accepts an unknown `whence` and seeks to position 0, where the in-memory reader
+    (bytes.Reader) reports an error and stays where it is. -/
+theorem seek_invalid_whence (st : Store) (ds : DownloadStream) (r : Reader) (o w : Int)
+    (hcl : ds.closed = false) (hw : w ≠ 0 ∧ w ≠ 1 ∧ w ≠ 2) :
+    ds.seek st o w = ds.seekPos st 0 ∧ r.seek o w = (r, 0, some .invalidWhence) := by
+  obtain ⟨h0, h1, h2⟩ := hw
+  unfold DownloadStream.seek Reader.seek
+  rw [hcl]
+  simp [h0, h1, h2]
+
+/-- For a chunk size above the buffer size the Write loop makes no progress once the buffer is full
+    (the model's fuel runs out; the real code spins forever). -/
+example : (UploadStream.write {} (UploadStream.new false 1 3 2) [1, 2, 3]).2.2.2 = some .diverged := by decide
+
+/-! ### Non-vacuity: concrete instances meet the hypotheses, and the model computes the expected values -/
+
+/-- 13 bytes, c = 4, B = 8, writes of 5 and 8 bytes: chunks 4+4+4+1 -/
+example :
+    (uploadAll {} false 1 4 8 [[1, 2, 3, 4, 5], [6, 7, 8, 9, 10, 11, 12, 13]]).1.chunks =
+      [⟨1, 0, [1, 2, 3, 4]⟩, ⟨1, 1, [5, 6, 7, 8]⟩, ⟨1, 2, [9, 10, 11, 12]⟩, ⟨1, 3, [13]⟩] ∧
+    (uploadAll {} false 1 4 8 [[1, 2, 3, 4, 5], [6, 7, 8, 9, 10, 11, 12, 13]]).1.files = [⟨1, 13, 4⟩] := by decide
+
+example := upload_chunks {} 1 4 8 (by decide) (by decide) (by simp) (by simp) (by simp) (by simp)
+  [1, 2, 3, 4, 5, 6, 7, 8, 9, 10, 11, 12, 13] [[1, 2, 3, 4, 5], [6, 7, 8, 9, 10, 11, 12, 13]] rfl
+
+example := upload_partition_independent {} 1 4 8 (by decide) (by decide) (by simp) (by simp) (by simp) (by simp)
+  [[1, 2, 3, 4, 5], [6, 7, 8, 9, 10, 11, 12, 13]] [[1], [], [2, 3, 4, 5, 6, 7, 8, 9, 10, 11, 12], [13]] rfl
+
+/-- a script with reads across chunk boundaries, seeks from all three origins, a negative target and EOF -/
+example := upload_then_download {} 1 4 8 (by decide) (by decide) (by simp) (by simp) (by simp) (by simp)
+  [1, 2, 3, 4, 5, 6, 7, 8, 9, 10, 11, 12, 13] [[1, 2, 3, 4, 5], [6, 7, 8, 9, 10, 11, 12, 13]] rfl
+  [.read 5, .seek (-3) 2, .read 10, .read 1, .skip (-20), .seek 6 0, .seek 1 1, .read 0, .read 3]
+  (by intro op h; simp at h; rcases h with h | h | h | h | h | h | h | h | h <;> subst h <;> simp [ROp.valid])
+
+/-- the reader side of that script, computed -/
+example : (Reader.run ⟨[1, 2, 3, 4, 5, 6, 7, 8, 9, 10, 11, 12, 13], 0⟩
+    [.read 5, .seek (-3) 2, .read 10, .read 1, .skip (-20), .seek 6 0]).map (fun o => (o.bytes, o.ret, o.err)) =
+    [([1, 2, 3, 4, 5], 5, none), ([], 10, none), ([11, 12, 13], 3, none), ([], 0, some .eof),
+     ([], 0, some .negPos), ([], 6, none)] := by decide
+
+example := abort_leaves_nothing {} true 1 4 8 (by decide) (by decide) (by simp) (by simp) (by simp)
+  [[1, 2, 3, 4, 5], [6, 7, 8, 9, 10]]
+
+example := delete_leaves_nothing {} 1 4 8 (by decide) (by decide) (by simp) (by simp) (by simp) (by simp)
+  [[1, 2, 3, 4, 5], [6, 7, 8, 9, 10]]
+
+/-- two suspensions (after 6 and after 3 more bytes), then the rest -/
+example := resume_equivalent {} 1 4 8 (by decide) (by decide) (by simp) (by simp) (by simp) (by simp)
+  [1, 2, 3, 4, 5, 6, 7, 8, 9, 10, 11, 12, 13] [[5, 1], [3]] [2] [[1, 2, 3, 4, 5, 6, 7, 8, 9, 10, 11, 12, 13]] rfl
+
+/-- suspending after 6 bytes persists one chunk of 4 and drops the 2 buffered bytes -/
+example : (trackedSegments [1, 2, 3, 4, 5, 6, 7, 8, 9, 10, 11, 12, 13] 1 4 8 {} [[5, 1]]).1.chunks = [⟨1, 0, [1, 2, 3, 4]⟩] := by decide
+
 end Lungo.C18
